@@ -152,11 +152,9 @@ def extract_selected_variable_and_expression(symbolic_cls: Type, domain: Optiona
     :param kwargs: The keyword arguments to the class constructor.
     :return: The selected variable and expression.
     """
-    cache_keys = get_cache_keys_for_class_(Variable._cache_, symbolic_cls)
-    if not domain and cache_keys:
-        domain = From((v for a, v in yield_class_values_from_cache(Variable._cache_, symbolic_cls, from_index=False,
-                                                                   cache_keys=cache_keys)))
-    elif domain and is_iterable(domain.domain):
+    # Without a domain the variable ranges over the registry of instances, which is read when the variable is evaluated
+    # (capturing it here would miss every instance and subclass registered after the declaration).
+    if domain and is_iterable(domain.domain):
             domain.domain = filter(lambda v: isinstance(v, symbolic_cls), domain.domain)
 
     var = Variable(symbolic_cls.__name__, symbolic_cls, _domain_source_=domain, _predicate_type_=predicate_type,
